@@ -44,6 +44,7 @@ var goName = map[string]string{
 	"crole": "CreateRole", "urole": "UpdateRole", "drole": "DeleteRole",
 	"cmp": "CreateMeasurementPermission", "dmp": "DeleteMeasurementPermission",
 	"amem": "AddTokenToTeam", "rmem": "RemoveTokenFromTeam",
+	"seed": "CreateOrganization:realign", "clean": "cleanupExpiredCache",
 	"ctok": "CreateToken", "utok": "UpdateToken", "rvtok": "RevokeToken", "dtok": "DeleteToken", "rottok": "RotateToken",
 }
 
@@ -92,9 +93,23 @@ type hist struct {
 	tokChange  map[int64]string
 	nHit, nRbac int
 	failed     bool
+	cap        int
+	r          *vh.Rand
+	victims    []string // capacity evictions performed by the op in progress (chosen by h.choose)
+	seeded     bool
 }
 
-func newHist(c *vh.Ctx, mode string) *hist {
+// choose is the eviction chooser: any entry is a legal victim of the production code; we pick one at
+// random and remember it — it becomes the eviction oracle of the op line the model reads.
+func (h *hist) choose(kind string, keys []string) int {
+	i := h.r.Intn(len(keys))
+	h.victims = append(h.victims, keys[i])
+	return i
+}
+
+func newHist(c *vh.Ctx, mode string) *hist { return newHistCap(c, mode, 10000, vh.NewRand(1)) }
+
+func newHistCap(c *vh.Ctx, mode string, capN int, r *vh.Rand) *hist {
 	verifclock.Set(baseNs)
 	lg := zerolog.Nop()
 	am, err := auth.NewAuthManager(":memory:", 5*time.Minute, 1000, lg)
@@ -103,10 +118,10 @@ func newHist(c *vh.Ctx, mode string) *hist {
 	}
 	lic := license.VerifNewClient(&license.License{LicenseKey: "verif", Tier: license.TierEnterprise, Status: "active",
 		Features: []string{license.FeatureRBAC}, ExpiresAt: time.Unix(4_000_000_000, 0)})
-	mk := func() *auth.RBACManager {
-		return auth.NewRBACManager(&auth.RBACManagerConfig{DB: am.GetDB(), LicenseClient: lic, Logger: lg, CacheTTL: time.Duration(ttlNs)})
+	mk := func(n int) *auth.RBACManager {
+		return auth.NewRBACManager(&auth.RBACManagerConfig{DB: am.GetDB(), LicenseClient: lic, Logger: lg, CacheTTL: time.Duration(ttlNs), MaxCacheSize: n})
 	}
-	h := &hist{c: c, mode: mode, am: am, rm: mk(), rm2: mk(), plain: map[int64]string{},
+	h := &hist{c: c, mode: mode, am: am, rm: mk(capN), rm2: mk(1000000), cap: capN, r: r, plain: map[int64]string{},
 		isTracked: map[key]bool{}, truth: map[key]string{}, lastChange: map[key]string{},
 		tokFP: map[int64]string{}, tokChange: map[int64]string{}}
 	if !h.rm.IsRBACEnabled() {
@@ -119,7 +134,18 @@ func newHist(c *vh.Ctx, mode string) *hist {
 			m.Call([]reflect.Value{reflect.ValueOf(h.rm)})
 		}
 	}
+	auth.VerifEvictChoose = h.choose
 	if mode == "cluster" {
+		h.wireCluster(0)
+	}
+	h.op(fmt.Sprintf("new %s %d %d %d", mode, ttlNs, baseNs, capN), "ok")
+	return h
+}
+
+// wireCluster: real ClusterFSM + the Apply* callbacks as cmd/arc/main.go wires them; this node is the leader.
+func (h *hist) wireCluster(firstIdx uint64) {
+	am, lg := h.am, zerolog.Nop()
+	{
 		fsm := craft.NewClusterFSM(lg)
 		rm := h.rm
 		fsm.SetAuthCallbacks(
@@ -166,12 +192,47 @@ func newHist(c *vh.Ctx, mode string) *hist {
 			},
 			func(tok, team int64) { _ = rm.ApplyRemoveTokenFromTeam(tok, team) },
 		)
-		p := &leaderProposer{fsm: fsm}
+		p := &leaderProposer{fsm: fsm, idx: firstIdx}
 		am.SetRaftProposer(p)
 		h.rm.SetRaftProposer(p)
 	}
-	h.op(fmt.Sprintf("new %s %d %d", mode, ttlNs, baseNs), "ok")
-	return h
+}
+
+// seed: the standalone node joins a cluster (fresh FSM whose log is already at firstIdx) and runs the
+// upgrade seed: one CreateOrganization proposal per local organization; each lands in
+// ApplyCreateOrganization's name-collision branch (delete + cascade + insert under the FSM's id).
+func (h *hist) seed() {
+	var maxID int64 = 1000
+	for _, t := range []string{"api_tokens", "rbac_organizations", "rbac_teams", "rbac_roles", "rbac_measurement_permissions", "rbac_token_memberships"} {
+		for _, id := range h.ids(t) {
+			if id >= maxID {
+				maxID = id + 1
+			}
+		}
+	}
+	h.wireCluster(uint64(maxID))
+	h.mode = "cluster"
+	h.seeded = true
+	out := vh.Guard(func() string {
+		if err := h.rm.SeedRBACFromLocalSQLite(context.Background()); err != nil {
+			return "error"
+		}
+		return "ok"
+	})
+	line := "seed"
+	for _, id := range h.ids("rbac_organizations") {
+		line += " " + itoa(id)
+	}
+	h.op(line, out)
+	h.c.Tag("seed:" + out)
+	h.refreshTruth(goName["seed"])
+}
+
+func (h *hist) clean() {
+	h.rm.VerifCleanup()
+	p, t := h.rm.VerifCacheSizes()
+	h.op("clean", fmt.Sprintf("ok p=%d t=%d", p, t))
+	h.c.Tag("clean")
 }
 
 func (h *hist) close() {
@@ -452,6 +513,7 @@ func (h *hist) chk(k key) string {
 		out = "deny:unauth:miss"
 	} else {
 		before := h.rm.GetCacheStats()
+		h.victims = nil
 		r := h.rm.CheckPermission(&auth.PermissionCheckRequest{TokenInfo: ti, Database: k.db, Measurement: k.meas, Permission: k.p})
 		after := h.rm.GetCacheStats()
 		hm := ":miss"
@@ -464,7 +526,12 @@ func (h *hist) chk(k key) string {
 		}
 		out = resStr(r) + hm
 	}
-	h.op("chk "+kstr(k), out)
+	line := "chk " + kstr(k)
+	if ti != nil && len(h.victims) > 0 {
+		line += " / " + strings.Join(h.victims, " ")
+		h.c.Tag("evict")
+	}
+	h.op(line, out)
 	h.c.Tag("chk:" + out)
 	h.monitor(k, out[:strings.LastIndex(out, ":")], "single")
 	return out
@@ -487,6 +554,7 @@ func (h *hist) bat(ks []key) {
 		idx = append(idx, i)
 	}
 	before := h.rm.GetCacheStats()
+	h.victims = nil
 	out := h.rm.CheckPermissionsBatch(reqs)
 	after := h.rm.GetCacheStats()
 	for j, r := range out {
@@ -495,6 +563,11 @@ func (h *hist) bat(ks []key) {
 	var parts []string
 	for _, k := range ks {
 		parts = append(parts, kstr(k))
+	}
+	if len(h.victims) > 0 {
+		parts = append(parts, "/")
+		parts = append(parts, h.victims...)
+		h.c.Tag("evict")
 	}
 	h.op("bat "+strings.Join(parts, " "), fmt.Sprintf("%s h=%d m=%d", strings.Join(res, ","), after["hits"]-before["hits"], after["misses"]-before["misses"]))
 	h.c.Tag("bat")
@@ -596,13 +669,28 @@ func (h *hist) checksAfterOp(r *vh.Rand, ws *[]key, everTok []int64) {
 				ks = append(ks, randomKey(r, everTok))
 			}
 		}
+		if h.cap < 10000 {
+			// with capacity evictions the (random) order in which CheckPermissionsBatch visits its
+			// per-token groups would matter; production batches carry one token, so do these
+			for i := range ks {
+				ks[i].tok = ks[0].tok
+			}
+		}
 		h.bat(ks)
 	}
 }
 
 func randomHistory(c *vh.Ctx, r *vh.Rand, mode string, nOps int) {
-	h := newHist(c, mode)
+	capN := 10000
+	if r.Chance(45) {
+		capN = vh.Pick(r, []int{1, 2, 2, 3, 3, 4, 6})
+	}
+	h := newHistCap(c, mode, capN, r.Fork())
 	defer h.finish()
+	seedAt := -1
+	if mode == "direct" && r.Chance(35) {
+		seedAt = r.Range(6, nOps)
+	}
 	var ws []key
 	var everTok []int64
 	maxID := int64(0)
@@ -630,6 +718,19 @@ func randomHistory(c *vh.Ctx, r *vh.Rand, mode string, nOps int) {
 			case len(mems) == 0:
 				f = []string{"amem", itoa(toks[0]), itoa(teams[0])}
 			}
+		}
+		if n == seedAt {
+			h.seed()
+			h.checksAfterOp(r, &ws, everTok)
+			continue
+		}
+		if f == nil && r.Chance(7) {
+			if r.Chance(50) {
+				h.adv(vh.Pick(r, []int64{ttlNs / 2, ttlNs - 1, ttlNs, ttlNs + 1}))
+			}
+			h.clean()
+			h.checksAfterOp(r, &ws, everTok)
+			continue
 		}
 		if f == nil {
 			switch w := r.Intn(100); {
@@ -730,7 +831,11 @@ func randomHistory(c *vh.Ctx, r *vh.Rand, mode string, nOps int) {
 				if r.Chance(4) {
 					pl = "bogus"
 				}
-				f = []string{"ctok", vh.Pick(r, tokNames), pl}
+				nm := vh.Pick(r, tokNames)
+				if h.seeded { // the FSM does not know the pre-switch tokens (nor their names): use fresh names
+					nm = "s" + nm
+				}
+				f = []string{"ctok", nm, pl}
 			case w < 93:
 				f = []string{"utok", itoa(pickID(r, toks, maxID)), vh.Pick(r, tokPermsLs)}
 			case w < 95:
@@ -896,6 +1001,93 @@ func scenarios(c *vh.Ctx, mode string) {
 		h.adv(1)
 		h.bat([]key{k2, k})
 	})
+	// --- the two caches are bounded and swept INDEPENDENTLY: a token's loaded data can be gone while one of
+	// its decisions is still cached; per-token invalidation must still drop that decision
+	if mode == "direct" || mode == "cluster" {
+		// (a) TTL sweep: data loaded at t0, a second decision computed later from the cached data
+		for _, mut := range []func(h *hist, x fx){
+			func(h *hist, x fx) { h.do("rmem", itoa(x.tok), itoa(x.team)) },
+			func(h *hist, x fx) { h.do("utok", itoa(x.tok), "~") },
+		} {
+			mut := mut
+			run(func(h *hist) {
+				x := h.setup("delete", "a_*", "read")
+				k1, k2, k3 := key{x.tok, "a_1", "", "read"}, key{x.tok, "a_x", "", "read"}, key{x.tok, "zz", "", "delete"}
+				h.chk(k1)
+				h.adv(ttlNs / 2)
+				h.chk(k2)
+				h.chk(k3)
+				h.adv(ttlNs/2 + 1) // data (and k1) past the TTL, k2/k3 not
+				h.clean()
+				mut(h, x)
+				h.chk(k2)
+				h.chk(k3)
+				h.bat([]key{k2, k3, k1})
+			})
+		}
+		// (b) capacity: other tokens' traffic through 2-entry caches evicts the member's data / decisions
+		for rep := 0; rep < 6; rep++ {
+			rep := rep
+			for _, mutk := range []string{"rmem", "utok", "amem"} {
+				mutk := mutk
+				h := newHistCap(c, mode, 2, vh.NewRand(uint64(1000+rep)))
+				x := h.setup("delete", "a_*", "read")
+				_, o1 := h.do("ctok", "k2", "read")
+				_, o2 := h.do("ctok", "k3", "read")
+				k, kd := key{x.tok, "a_1", "", "read"}, key{x.tok, "zz", "", "delete"}
+				if mutk == "amem" {
+					h.do("rmem", itoa(x.tok), itoa(x.team))
+				}
+				h.chk(k)
+				h.chk(kd)
+				for i := 0; i < 2+rep%3; i++ {
+					h.bat([]key{{o1, "zz", "", "read"}})
+					h.chk(k)
+					h.bat([]key{{o2, "zz", "", "read"}})
+					h.chk(kd)
+				}
+				switch mutk {
+				case "rmem":
+					h.do("rmem", itoa(x.tok), itoa(x.team))
+				case "utok":
+					h.do("utok", itoa(x.tok), "~")
+				case "amem":
+					h.do("amem", itoa(x.tok), itoa(x.team))
+				}
+				h.chk(k)
+				h.chk(kd)
+				h.bat([]key{k, kd})
+				h.finish()
+			}
+		}
+	}
+	// --- upgrade: a standalone node with RBAC rows joins a cluster; the seed re-creates every organization
+	// under the FSM's id and the local delete cascades the old organization's teams/roles/memberships away
+	if mode == "direct" {
+		run(func(h *hist) {
+			x := h.setup("~", "a_*", "read")
+			h.do("corg", "o2")
+			k := key{x.tok, "a_1", "cpu_x", "read"}
+			h.chk(k)
+			h.bat([]key{k, {x.tok, "a_x", "", "read"}})
+			h.seed()
+			h.chk(k)
+			h.bat([]key{k, {x.tok, "a_x", "", "read"}})
+			h.chk(key{x.tok, "a_1", "", "read"}) // never cached: goes through the token-data cache
+			// life goes on in cluster mode
+			orgs := h.ids("rbac_organizations")
+			_, team := h.do("cteam", itoa(orgs[0]), "t1")
+			h.do("crole", itoa(team), "a_*", "read")
+			h.do("amem", itoa(x.tok), itoa(team)) // pre-switch token: unknown to the FSM
+			_, nt := h.do("ctok", "sk1", "~")
+			h.do("amem", itoa(nt), itoa(team))
+			h.do("utok", itoa(x.tok), "read")
+			h.chk(k)
+			h.chk(key{nt, "a_1", "", "read"})
+			h.adv(ttlNs)
+			h.chk(k)
+		})
+	}
 	// --- malformed / rejected inputs leave state and caches alone
 	run(func(h *hist) {
 		x := h.setup("~", "a_*", "read")
@@ -960,13 +1152,27 @@ func replay(c *vh.Ctx, path string) {
 				if h != nil {
 					h.finish()
 				}
-				h = newHist(c, f[1])
+				capN := 10000
+				if len(f) > 4 {
+					capN = int(i64(f[4]))
+				}
+				h = newHistCap(c, f[1], capN, vh.NewRand(c.Seed))
+			case "seed":
+				h.seed()
+			case "clean":
+				h.clean()
 			case "adv":
 				h.adv(i64(f[1]))
 			case "chk":
 				h.chk(key{i64(f[1]), f[2], dec(f[3]), f[4]})
 			case "bat":
 				var ks []key
+				for i, x := range f {
+					if x == "/" {
+						f = f[:i]
+						break
+					}
+				}
 				for i := 1; i+3 < len(f); i += 4 {
 					ks = append(ks, key{i64(f[i]), f[i+1], dec(f[i+2]), f[i+3]})
 				}
